@@ -13,6 +13,7 @@ mod c02;
 mod c03;
 mod c04;
 mod c05;
+mod c12;
 
 fn main() {
     let args: Vec<String> = std::env::args().collect();
@@ -34,6 +35,7 @@ fn main() {
         "C02" => { c02::cases(&mut ctx); c02::preds(&mut ctx); }
         "C04" => { c04::cases(&mut ctx); c04::preds(&mut ctx); }
         "C05" => { c05::cases(&mut ctx); c05::preds(&mut ctx); }
+        "C12" => { c12::cases(&mut ctx); c12::preds(&mut ctx); }
         "C03" => { c03::cases(&mut ctx); c03::preds(&mut ctx); }
         _ => { eprintln!("unknown property {}", prop); std::process::exit(2); }
     }
